@@ -540,17 +540,38 @@ Proof.
 Qed.
 
 (* ---- the loop *)
+Definition GL (l : list ast) (s : tst) : Prop := exists E, In E l /\ G E s.
+
+Lemma add_exit_old : forall E l s, GL l s -> GL (add_exit E l) s.
+Proof.
+  intros E l s [X [Hin HX]]. unfold add_exit. destruct (is_bot E); [exists X; split; assumption|].
+  destruct (existsb (aleq E) l); [exists X; split; assumption|].
+  destruct (Nat.ltb (List.length l) 8); [exists X; split; [right; exact Hin | exact HX]|].
+  destruct l as [|Y r]; [contradiction|]. destruct Hin as [Hin|Hin].
+  - subst Y. exists (ajoin X E). split; [left; reflexivity | apply ajoin_l; exact HX].
+  - exists X. split; [right; exact Hin | exact HX].
+Qed.
+Lemma add_exit_new : forall E l s, G E s -> GL (add_exit E l) s.
+Proof.
+  intros E l s HE. unfold add_exit. rewrite (G_not_bot E s HE).
+  destruct (existsb (aleq E) l) eqn:Ex.
+  - apply existsb_exists in Ex. destruct Ex as [X [Hin HL]]. exists X. split; [exact Hin | exact (aleq_sound E X s HL HE)].
+  - destruct (Nat.ltb (List.length l) 8); [exists E; split; [left; reflexivity | exact HE]|].
+    destruct l as [|Y r]; [exists E; split; [left; reflexivity | exact HE]|].
+    exists (ajoin Y E). split; [left; reflexivity | apply ajoin_r; exact HE].
+Qed.
+
 Lemma aloop_mono : forall run k joined c body S exits ret E R,
   aloop run k joined c body S exits ret = Ok (E, R) ->
-  (forall s : tst, G exits s -> G E s) /\ (ret = true -> R = true).
+  (forall s : tst, GL exits s -> GL E s) /\ (ret = true -> R = true).
 Proof.
   intros run k. induction k as [|k IH]; intros joined c body S exits ret E R H; cbn [aloop] in H; [discriminate|].
   destruct (asplit c S) as [[St Sf]|] eqn:Es; [|discriminate].
   destruct (run body St) as [ob|] eqn:Er; [|discriminate].
   destruct (aleq (o_next ob) S).
-  - inversion H; subst; clear H. split; [intros s Hs; apply ajoin_l; exact Hs | intro Hr; rewrite Hr; reflexivity].
+  - inversion H; subst; clear H. split; [intros s Hs; apply add_exit_old; apply add_exit_old; exact Hs | intro Hr; rewrite Hr; reflexivity].
   - destruct (IH _ _ _ _ _ _ _ _ H) as [A B]. split.
-    + intros s Hs. apply A. apply ajoin_l. exact Hs.
+    + intros s Hs. apply A. apply add_exit_old. apply add_exit_old. exact Hs.
     + intro Hr. apply B. rewrite Hr. reflexivity.
 Qed.
 
@@ -562,19 +583,18 @@ Qed.
 
 Lemma aloop_sound : forall run, run_sound run -> forall k joined c body S exits ret E R,
   aloop run k joined c body S exits ret = Ok (E, R) ->
-  forall rest o2, (forall f (s' : tst), G E s' -> GF o2 (exec' f rest s')) ->
+  forall rest o2, (forall f (s' : tst), GL E s' -> GF o2 (exec' f rest s')) ->
   forall f (s : tst), G S s ->
   GF {| o_next := o_next o2; o_break := o_break o2; o_ret := R || o_ret o2 |} (exec' f (SWhile c body :: rest) s).
 Proof.
   intros run RS k. induction k as [|k IHk]; intros joined c body S exits ret E R H rest o2 Hrest; cbn [aloop] in H; [discriminate|].
   destruct (asplit c S) as [[St Sf]|] eqn:Es; [|discriminate].
   destruct (run body St) as [ob|] eqn:Er; [|discriminate].
-  set (exits' := ajoin exits (ajoin Sf (o_break ob))) in *.
+  set (exits' := add_exit (o_break ob) (add_exit Sf exits)) in *.
   set (ret' := ret || o_ret ob) in *.
-  (* one unfolding of the loop, given what to do with the state after the body *)
-  assert (STEP : forall (E0 : ast) (R0 : bool),
-            (forall s : tst, G exits' s -> G E0 s) -> (ret' = true -> R0 = true) ->
-            (forall f (s' : tst), G E0 s' -> GF o2 (exec' f rest s')) ->
+  assert (STEP : forall (E0 : list ast) (R0 : bool),
+            (forall s : tst, GL exits' s -> GL E0 s) -> (ret' = true -> R0 = true) ->
+            (forall f (s' : tst), GL E0 s' -> GF o2 (exec' f rest s')) ->
             forall f0 (s : tst), G S s ->
             (forall s' : tst, G (o_next ob) s' ->
                GF {| o_next := o_next o2; o_break := o_break o2; o_ret := R0 || o_ret o2 |} (exec' f0 (SWhile c body :: rest) s')) ->
@@ -585,12 +605,12 @@ Proof.
     - pose proof (RS body St ob Er f0 s (A1 eq_refl)) as Hb. unfold texec in Hb.
       destruct (exec (list tok) t_detect t_extract t_complete fparse f0 body s) as [s1|s1|s1|e| |]; cbn [GF] in Hb.
       + apply HN. exact Hb.
-      + apply GF_loop_out. apply HR. apply ME. unfold exits'. apply ajoin_r. apply ajoin_r. exact Hb.
+      + apply GF_loop_out. apply HR. apply ME. unfold exits'. apply add_exit_new. exact Hb.
       + cbn [GF o_ret]. rewrite (MR ltac:(unfold ret'; rewrite Hb; apply orb_true_r)). reflexivity.
       + exact Hb.
       + exact I.
       + contradiction.
-    - apply GF_loop_out. apply HR. apply ME. unfold exits'. apply ajoin_r. apply ajoin_l. apply A2. reflexivity. }
+    - apply GF_loop_out. apply HR. apply ME. unfold exits'. apply add_exit_old. apply add_exit_new. apply A2. reflexivity. }
   destruct (aleq (o_next ob) S) eqn:EL.
   - inversion H; subst E R; clear H.
     intro f. induction f as [|f0 IHf]; intros s HG; [exact I|].
@@ -602,6 +622,17 @@ Proof.
     intros s' Hs'. apply (IHk _ _ _ _ _ _ _ _ H rest o2 Hrest f0 s').
     destruct (joined && forallb (fun h => hd_mem h (a_cur S)) (a_cur (o_next ob)) && forallb (fun h => hd_mem h (a_cur (o_next ob))) (a_cur S));
       [apply ajoin_r; exact Hs' | exact Hs'].
+Qed.
+
+Lemma acont_sound : forall run, run_sound run -> forall r Es o2, acont run r Es = Ok o2 ->
+  forall f (s' : tst), GL Es s' -> GF o2 (exec' f r s').
+Proof.
+  intros run RS r Es. induction Es as [|E t IH]; intros o2 H f s' [X [Hin HX]]; [contradiction|].
+  cbn [acont] in H. destruct (run r E) as [a|] eqn:Ea; [|discriminate].
+  destruct (acont run r t) as [b|] eqn:Eb; [|discriminate]. inversion H; subst; clear H.
+  destruct Hin as [Hin|Hin].
+  - subst X. apply GF_ojoin_l. exact (RS r E a Ea f s' HX).
+  - apply GF_ojoin_r. apply (IH b eq_refl f s'). exists X. split; assumption.
 Qed.
 
 (* ---- peek *)
@@ -670,11 +701,9 @@ Proof.
     + apply (IH r _ o H f0). apply G_set; [exact HG | apply in_anat_exact].
     + apply (IH r _ o H f0). apply G_set; [exact HG | apply in_anat_exact].
     + (* while *)
-      destruct (aloop (asexec fp U lax n) loop_fuel false c body S bot false) as [[E R]|] eqn:El; [|discriminate].
-      cbn [o_next o_break o_ret] in H.
-      destruct (asexec fp U lax n r E) as [o2|] eqn:Er; [|discriminate]. inversion H; subst; clear H.
-      change (ajoin bot (o_break o2)) with (o_break o2).
-      exact (aloop_sound _ IH _ _ _ _ _ _ _ _ _ El r o2 (fun f1 s' Hs' => IH r E o2 Er f1 s' Hs') (Datatypes.S f0) s HG).
+      destruct (aloop (asexec fp U lax n) loop_fuel false c body S [] false) as [[Es R]|] eqn:El; [|discriminate].
+      destruct (acont (asexec fp U lax n) r Es) as [o2|] eqn:Er; [|discriminate]. inversion H; subst; clear H.
+      exact (aloop_sound _ IH _ _ _ _ _ _ _ _ _ El r o2 (acont_sound _ IH r Es o2 Er) (Datatypes.S f0) s HG).
     + (* if *)
       destruct (asplit c S) as [[St Sf]|] eqn:Es; [|discriminate].
       destruct (asexec fp U lax n th St) as [ot|] eqn:Et; [|discriminate].
